@@ -278,9 +278,11 @@ def recScopeNodes (P : Program) (start dst : Node) (isOneof : Bool) : List Node 
 def predsFor (P : Program) (s : St) (d : DagRef) (n : Node) : List Node :=
   let g := P.g
   let base :=
-    if g.isSwitch n && !d.isRec then
+    if g.isSwitch n then
+      -- (fix: also in the DAG of a restarted recurrent subgraph — it has no case edges, so nothing orders a case node
+      -- that is a part of it before the switch)
       (g.edges.filter (fun e => e.v == n && e.isSwitch)).map (·.u)
-    else if g.isSwitch n || g.isOneofHead n || d.isRec then
+    else if g.isOneofHead n || d.isRec then
       -- (fix: a one-of head does not wait for its own candidates — they may be nodes of the current DAG because somebody
       -- else depends on them too)
       (g.preds n).filter fun p => d.nodes.contains p && !(g.isOneofHead n && (g.attr n).oneofNodes.contains p)
